@@ -274,3 +274,45 @@ fn test_one_sample_image_with_distinct_extremes_round_trips() {
     one.update(3.0);
     assert_eq!(one.serialize().len(), 16);
 }
+
+#[test]
+fn test_quantile_stays_between_min_and_max() {
+    // rounding of the interpolation must not leave the interval of the two means
+    let mut td = TDigestMut::new(10);
+    for _ in 0..13 {
+        td.update(0.3);
+    }
+    for i in 0..=1000 {
+        assert_eq!(td.quantile(i as f64 / 1000.0), Some(0.3));
+    }
+
+    let mut td = TDigestMut::new(100);
+    for i in 0..5574 {
+        td.update(1e15 + (i % 64) as f64);
+    }
+    let (min, max) = (td.min_value().unwrap(), td.max_value().unwrap());
+    for i in 0..=10000 {
+        let q = td.quantile(i as f64 / 10000.0).unwrap();
+        assert!((min..=max).contains(&q), "quantile {q}");
+    }
+}
+
+#[test]
+fn test_quantile_is_monotone_next_to_a_distant_max() {
+    // general form, k = 100, min 0, max 1e15, centroids (0.5, weight 1) and (1.01, weight 10)
+    let mut image = vec![2u8, 1, 20, 100, 0, 0, 0, 0, 2, 0, 0, 0, 0, 0, 0, 0];
+    image.extend_from_slice(&0.0f64.to_le_bytes());
+    image.extend_from_slice(&1e15f64.to_le_bytes());
+    for (mean, weight) in [(0.5f64, 1u64), (1.01, 10)] {
+        image.extend_from_slice(&mean.to_le_bytes());
+        image.extend_from_slice(&weight.to_le_bytes());
+    }
+    let mut td = TDigestMut::deserialize(&image, false).unwrap();
+    let mut previous = f64::NEG_INFINITY;
+    for i in 0..=11000 {
+        let q = td.quantile(i as f64 / 11000.0).unwrap();
+        assert!(previous <= q, "quantile {q} after {previous}");
+        previous = q;
+    }
+    assert_eq!(td.quantile(6.0 / 11.0), Some(1.01));
+}
